@@ -69,7 +69,12 @@ msgs.append(msg("EmbV", [
     fld("VA", "string", oneof=0),
     m("VB", "Leaf", oneof=0),
     fld("VList", "int64", card="repeated"),
-], oneofs=["VChoice"]))
+    # a second and a third group: the embedding message receives several oneofs by promotion
+    fld("VX", "bool", oneof=1),
+    fld("VY", "uint32", oneof=1),
+    fld("VP", "string", oneof=2),
+    fld("VQ", "double", oneof=2),
+], oneofs=["VChoice", "v_other", "VThird"]))
 
 # a message that embeds a message without fields
 _num[0] = 0
@@ -93,6 +98,10 @@ msgs.append(msg("Inner", [
     m("EmbPart", "Emb", embed=True),
     fld("When", "timestamp", stdTime=True),
     fld("Whens", "timestamp", stdTime=True, card="repeated"),
+    # maps of std time / duration values (pointer values by default, by value with nullable=false)
+    fld("WhenMap", "timestamp", stdTime=True, card="map", mapKey="string"),
+    fld("DurMap", "duration", stdDuration=True, card="map", mapKey="string"),
+    fld("WhenMapV", "timestamp", stdTime=True, card="map", mapKey="string", nullable="false"),
     fld("Tags", "string", card="map", mapKey="string"),
     fld("Secret", "string"),
 ], oneofs=["inner_choice"]))
